@@ -65,6 +65,13 @@ def gen(tier, seed, count=None, maxn=8, maxlen=10, miri=False):
             out.append("id=%d hist=%s pe=%d seed=%d reuse=1 dmode=%d damount=%d fpint=0 fpseed=1 gapat=%d gapms=%d" % (
                 n + k, ",".join(map(str, hist)), rng.choice([0, 1]), rng.randrange(1 << 30), rng.choice([3, 4, 2]), rng.choice([30, 120]), rng.randrange(1, len(hist)), ms))
     if count is None and not miri:
+        # several callers whose very first broadcasts meet on an empty pool and all have to grow it
+        for k in range(24 if tier == "quick" else 400):
+            c = rng.choice([2, 2, 3])
+            w = rng.choice([2, 4, 4, 6])
+            out.append("id=%d hist=%s pe=0 seed=%d reuse=0 callers=%d cmode=1 dmode=0 damount=5 fpint=0 fpseed=1" % (
+                n + 300 + k, ",".join([str(w)] * c), rng.randrange(1 << 30), c))
+    if count is None and not miri:
         # wide broadcasts (machine-word boundaries of any per-worker bookkeeping: 31, 32, 33, 63, 64, 65 auxiliary threads), with
         # workers that are late for the next hand-off
         for k in range(6 if tier == "quick" else 24):
